@@ -41,6 +41,8 @@ pub fn train(spec: &TrainSpec, with_user: bool) -> Result<Model, String> {
     let (tx, rx) = std::sync::mpsc::channel();
     std::thread::Builder::new()
         .name("training".into())
+        // the trie builder recurses once per character of a surface: room for long surfaces
+        .stack_size(256 << 20)
         .spawn(move || {
             let _ = tx.send(train_inner(&spec2, with_user));
         })
